@@ -72,7 +72,7 @@ Record account := mk_account {
   acc_balance : N;
   acc_nonce : N;
   acc_code : list N;
-  acc_storage : nmap N           (* only non-zero slots are kept *)
+  acc_storage : nmap N           (* a slot without an entry is 0; entries may hold 0 *)
 }.
 Definition empty_account : account := mk_account 0 0 [] [].
 
@@ -116,8 +116,7 @@ Definition set_code w a c :=
   set_account w a (mk_account (acc_balance x) (acc_nonce x) c (acc_storage x)).
 Definition set_storage w a k v :=
   let x := get_account w a in
-  let s := if v =? 0 then nm_remove (acc_storage x) k else nm_set (acc_storage x) k v in
-  set_account w a (mk_account (acc_balance x) (acc_nonce x) (acc_code x) s).
+  set_account w a (mk_account (acc_balance x) (acc_nonce x) (acc_code x) (nm_set (acc_storage x) k v)).
 
 (* StateDB.Empty: nonce = 0, balance = 0, no code (EIP-161) *)
 Definition is_empty w a : bool :=
